@@ -149,20 +149,31 @@ class SmartList(list):
             raise ValueError("List only supports elements of type '%s'" %
                              self._content_type)
 
-        if hasattr(self[key], "_parent") and hasattr(value, "sections"):
-            _check_not_own_ancestor(self[key]._parent, value)
+        # Run all checks before anything is changed; fails if there is no item at *key*.
+        replaced = self[key]
+        if replaced is value:
+            return
+
+        for obj in self:
+            if obj is not replaced and hasattr(obj, "name") and obj.name == value.name:
+                raise KeyError("Object with the same name already exists! " + str(value))
+
+        if hasattr(replaced, "_parent") and hasattr(value, "sections"):
+            _check_not_own_ancestor(replaced._parent, value)
+
+        position = self.index(replaced)
 
         # If required remove new object from its old parents child-list
-        if hasattr(value, "_parent") and (value._parent and value in value._parent):
+        if hasattr(value, "_parent") and value._parent is not None:
             value._parent.remove(value)
 
         # If required move parent reference from replaced to new object
         # and set parent reference on replaced object None.
-        if hasattr(self[key], "_parent"):
-            value._parent = self[key]._parent
-            self[key]._parent = None
+        if hasattr(replaced, "_parent"):
+            value._parent = replaced._parent
+            replaced._parent = None
 
-        super(SmartList, self).__setitem__(key, value)
+        super(SmartList, self).__setitem__(position, value)
 
     def __contains__(self, key):
         for obj in self:
